@@ -180,7 +180,7 @@ def main() -> None:
         "notes": "Exit codes: 0 held, 1 VIOLATION (replay file printed), 2 HARNESS-ERROR. VERIF_SEED selects the explored plans; "
                  "VERIF_JOBS the worker count; VERIF_REPO_SRC the tree under test (default /repo/src). Known findings: "
                  "/verif/known_findings.json (2 open entries sharing one root cause in the external x690 package, C19/C20; "
-                 "26 fixed entries (17 fix: commits) whose minimised plans under /verif/regressions are re-run by the checks). Self-tests: "
+                 "25 fixed entries (17 fix: commits) whose minimised plans under /verif/regressions are re-run by the checks). Self-tests: "
                  "`sim/check.py selftest reference|determinism|evidence|fidelity|sensitivity`. Seeded defects from independent "
                  "sub-agents and the checks that catch them: /verif/seeded, DESIGN.md section 13.",
     }
